@@ -136,6 +136,31 @@ impl Sess {
         });
     }
 
+    /// A session wrapper around an existing customer stage (twin tracks, restored states).
+    pub fn from_stage(m: &'static Merchant, cid: ChannelId, stage: Stage, ledger: (u64, u64)) -> Sess {
+        Sess {
+            m,
+            cid,
+            stage,
+            ledger,
+            pending: None,
+            pending_amount: None,
+            disclosed_locks: vec![],
+            log: vec![],
+            step: 0,
+            m_blinded_state: None,
+            m_unrevoked: None,
+        }
+    }
+
+    /// Replace the stage by decode(encode(stage)) — a store-and-restore point.
+    pub fn restore(&mut self) -> Result<(), String> {
+        let name = self.stage.name();
+        let bytes = self.stage.bytes();
+        self.stage = Stage::from_bytes(name, &bytes).map_err(|e| format!("restore of stage {} failed: {}", name, e))?;
+        Ok(())
+    }
+
     /// E1: customer requests a channel. Returns the session and the establish proof bytes.
     pub fn request(
         m: &'static Merchant,
